@@ -93,6 +93,11 @@ REPRO = {
     "to_stack": ("st = c.to_stack(); top = walk(c._elements, deep=False)\nopen_ = []\nfor text, obj in st:\n    if text in ('[', '('): open_.append((text, obj))\n"
                  "    elif text in (']', ')'):\n        t, o = open_.pop(); assert (t, text) in (('[', ']'), ('(', ')')) and o is obj\nassert not open_\n"
                  "ents = [o for t, o in st if t not in ('[', ']', '(', ')')]\nassert len(ents) == len(top) and all(a is b for a, b in zip(ents, top))\n"),
+    "to_drawing(label options)": ("top = walk(c._elements, deep=False); cnt = c.generate_element_identifiers(running=False)\n"
+                                  "d = c.to_drawing(custom_labels={top[0]: '$x_0$'})\ngot = sorted(l.label for x in d.elements for l in getattr(x, '_userlabels', []) if l.label)\n"
+                                  "want = sorted(['$x_0$'] + ['$' + e.get_symbol() + '_{\\\\rm ' + str(e.get_label() or cnt[e]) + '}$' for e in top[1:]])\nassert got == want, (got, want)\n"
+                                  "c.to_drawing(hide_labels=True)\n"),
+    "to_circuitikz(label options)": ("top = walk(c._elements, deep=False)\nsrc = c.to_circuitikz(custom_labels={top[0]: 'x_0'}); assert src.count('=$x_0$]') == 1, src\n"),
     "to_drawing": ("d = c.to_drawing(); top = walk(c._elements, deep=False); cnt = c.generate_element_identifiers(running=False)\n"
                    "got = sorted(l.label for x in d.elements for l in getattr(x, '_userlabels', []) if l.label)\n"
                    "want = sorted('$' + e.get_symbol() + '_{\\\\rm ' + str(e.get_label() or cnt[e]) + '}$' for e in top)\nassert got == want, (got, want)\n"),
@@ -104,7 +109,7 @@ def repro_for(spec, export):
 
 
 FUNCTION = {"to_sympy": "Circuit.to_sympy", "to_sympy(substitute=True)": "Circuit.to_sympy", "to_latex": "Circuit.to_latex", "to_circuitikz": "to_circuitikz",
-            "to_stack": "Circuit.to_stack", "to_drawing": "to_drawing"}
+            "to_stack": "Circuit.to_stack", "to_drawing": "to_drawing", "to_drawing(label options)": "to_drawing", "to_circuitikz(label options)": "to_circuitikz"}
 
 
 def eval_spec(spec, part, out):
@@ -226,6 +231,27 @@ def eval_spec(spec, part, out):
                 fail("to_drawing", "label-text-wrong", f"{got} vs {wantl}")
         except Exception as exn:  # noqa
             fail("to_drawing", f"raises {type(exn).__name__}", repr(exn))
+        # the label options: custom labels for SOME elements (the others keep their generated names), hidden labels
+        if len(top) >= 2:
+            cnt = c.generate_element_identifiers(running=False)
+            try:
+                d = c.to_drawing(custom_labels={top[0]: "$x_0$"})
+                got = sorted(l.label for x in d.elements for l in getattr(x, "_userlabels", []) if l.label)
+                wantl = sorted(["$x_0$"] + [ce.diagram_label(e.get_symbol(), e.get_label() or cnt[e]) for e in top[1:]])
+                if got != wantl:
+                    fail("to_drawing(label options)", "label-text-wrong", f"custom label for one element: {got} vs {wantl}")
+                d = c.to_drawing(hide_labels=True)
+                if [l.label for x in d.elements for l in getattr(x, "_userlabels", []) if l.label]:
+                    fail("to_drawing(label options)", "labels not hidden", "")
+            except Exception as exn:  # noqa
+                fail("to_drawing(label options)", f"raises {type(exn).__name__}", repr(exn))
+            if "one-branch-parallel" not in feats:          # (a one-branch parallel makes to_circuitikz raise: recorded finding)
+                try:
+                    src = c.to_circuitikz(custom_labels={top[0]: "x_0"})        # CircuiTikZ labels are put into math mode by the routine
+                    if src.count("=$x_0$]") != 1 or src.count("to[") < len(top):
+                        fail("to_circuitikz(label options)", "custom label not used exactly once", src[:200])
+                except Exception as exn:  # noqa
+                    fail("to_circuitikz(label options)", f"raises {type(exn).__name__}", repr(exn))
         bump("drawing")
     return True
 
